@@ -151,3 +151,83 @@ MUTANTS['C02'] = {
         return self if len(self) < self.max_size else self.copy()
 """)], 'detect'),
 }
+
+_NOLOCK = (CU, "PREV, NEXT, KEY, VALUE = range(4)   # names for the link fields",
+           """PREV, NEXT, KEY, VALUE = range(4)   # names for the link fields
+
+
+class _NoLock:
+    def __enter__(self):
+        return self
+
+    def __exit__(self, *a):
+        return False
+
+
+_NOLOCK = _NoLock()""")
+
+
+def _unlock(defline, n=1):
+    return [_NOLOCK, (CU, defline + "\n        with self._lock:", defline + "\n        with _NOLOCK:")]
+
+
+MUTANTS['C03'] = {
+    'nolock-setitem': (_unlock("    def __setitem__(self, key, value):"), 'detect'),
+    'nolock-lri-getitem': ([_NOLOCK, (CU, """    def __getitem__(self, key):
+        with self._lock:
+            try:
+                link = self._link_lookup[key]""", """    def __getitem__(self, key):
+        with _NOLOCK:
+            try:
+                link = self._link_lookup[key]""")], 'detect'),
+    'nolock-lru-getitem': ([_NOLOCK, (CU, """    def __getitem__(self, key):
+        with self._lock:
+            try:
+                link = self._get_link_and_move_to_front_of_ll(key)""", """    def __getitem__(self, key):
+        with _NOLOCK:
+            try:
+                link = self._get_link_and_move_to_front_of_ll(key)""")], 'detect'),
+    'nolock-delitem': (_unlock("    def __delitem__(self, key):"), 'detect'),
+    'nolock-pop': ([_NOLOCK, (CU, """        # NB: hit/miss counts are bypassed for pop()
+        with self._lock:""", """        # NB: hit/miss counts are bypassed for pop()
+        with _NOLOCK:""")], 'detect'),
+    'nolock-popitem': (_unlock("    def popitem(self):"), 'detect'),
+    'nolock-clear': (_unlock("    def clear(self):"), 'detect'),
+    'nolock-setdefault': (_unlock("    def setdefault(self, key, default=None):"), 'detect'),
+    'nolock-update': ([_NOLOCK, (CU, """        # E and F are throwback names to the dict() __doc__
+        with self._lock:""", """        # E and F are throwback names to the dict() __doc__
+        with _NOLOCK:""")], 'detect'),
+    'nolock-copy': ([_NOLOCK, (CU, """        # counts nor the ordering of this cache are disturbed
+        with self._lock:""", """        # counts nor the ordering of this cache are disturbed
+        with _NOLOCK:""")], 'detect'),
+    'narrow-critical-section-setitem': ([(CU, """            else:
+                link[VALUE] = value
+            super().__setitem__(key, value)
+        return""", """            else:
+                link[VALUE] = value
+        super().__setitem__(key, value)
+        return""")], 'detect'),
+    'non-reentrant-lock': ([(CU, """try:
+    from threading import RLock
+except Exception:""", """try:
+    from threading import Lock as RLock
+except Exception:""")], 'detect'),
+    'pop-release-before-ring': ([(CU, """            try:
+                ret = super().pop(key)
+            except KeyError:
+                if default is _MISSING:
+                    raise
+                ret = default
+            else:
+                self._remove_from_ll(key)
+            return ret""", """            try:
+                ret = super().pop(key)
+            except KeyError:
+                if default is _MISSING:
+                    raise
+                return default
+        with self._lock:
+            self._remove_from_ll(key)
+        return ret""")], 'detect'),
+    'per-call-lock': ([(CU, "    def __setitem__(self, key, value):\n        with self._lock:", "    def __setitem__(self, key, value):\n        with RLock():")], 'detect'),
+}
